@@ -6,13 +6,17 @@ Props/C06_OggInjectLoad.lean — C06 for LOADING an Ogg file (`OggVorbis(fileobj
 `load` — in ARBITRARY fault environments: any exception injected at any call, a short read at any read.
 Lemmas: Proofs/Container/OggInjectLoad.lean.
 
-What is proved: load never writes; what can leave it; which exceptions the slow way of `find_last` swallows
-(every `ogg.error` / EOFError a short read produces: the load then succeeds with an earlier page as "last
-page", i.e. a wrong length — witness below); and, without faults, that the four page loops compute the pure
-functions of Model/Container/OggInject.lean on the bytes (the whole-program statement `loadM = loadPure` is
-checked on instances here and on every generated file by the tie, not proved in general).
+What is proved: load never writes; what can leave it (MutagenError, the probe's ValueError, the model's
+non-termination marker — no IndexError, no EOFError, no struct.error); which exceptions the slow way of
+`find_last` swallows (every `ogg.error` / EOFError a short read produces: the load then succeeds with an earlier
+page as "last page", i.e. a wrong length — witness below); `ogg_loadM_refines`: without faults `loadM` returns
+the pure `loadPure` on the bytes, for every byte string; the link of that pure load to the stream-info models
+of Model/Info/OggCodecs.lean (`ogg_info_link`, `ogg_find_last_link`: the same functions), so that the C05
+theorems speak about what `loadM` returns; and `ogg_save_reads_then_writes`: `save` / `delete` with their reads
+as programs are the summarised `saveEntry` / `deleteEntry` run behind the reads.
 -/
-import MutagenModel.Proofs.Container.OggInjectLoad
+import MutagenModel.Proofs.Container.OggInjectLoadLink
+import MutagenModel.Proofs.Container.OggInjectFull
 set_option linter.unusedVariables false
 namespace Mutagen.C06
 open Mutagen Mutagen.Ogg Mutagen.OggInj
@@ -27,20 +31,25 @@ theorem ogg_load_leaves_file_untouched (c : Codec) (e : Env) (s : FS) (r : Excep
 
 /-- what leaves `OggX(fileobj)` under ANY fault environment: the format's error (MutagenError); ValueError
 (`verify_fileobj` turns ANY failure of its probing `read(0)` into ValueError: the recorded finding
-`escape:ValueError:_util.py:verify_fileobj`); or something the handlers of `load` do not catch — IndexError
-(from `to_packets`; not excluded for pages read under faults, excluded on the bytes by the C04 closure), the
-model's non-termination marker, or an exception the environment injected that is none of IOError, ogg.error,
-EOFError, ValueError.  In particular no EOFError and no struct.error from a short read. -/
+`escape:ValueError:_util.py:verify_fileobj`); or something the handlers of `load` do not catch — the model's
+non-termination marker, or an exception the environment injected that is none of IOError, ogg.error, EOFError,
+ValueError.  No IndexError (an incomplete page that `OggPage(fileobj)` returns holds a packet, whatever was
+read: `post_readPageM`), no EOFError and no struct.error from a short read. -/
 theorem ogg_load_raises_only (c : Codec) :
-    Raises (fun e x => x = .mutagen ∨ x = .value ∨
-      ((x = .index ∨ x = .diverge ∨ Injected e x) ∧ loadCaught x = false)) (loadM c) :=
+    Raises (fun e x => x = .mutagen ∨ x = .value ∨ ((x = .diverge ∨ Injected e x) ∧ loadCaught x = false)) (loadM c) :=
   raises_loadM c
 
-/-- … and when every injected exception is an IOError: MutagenError, ValueError (the probe), or the two
-unreached ones -/
+/-- … and when every injected exception is an IOError: MutagenError or ValueError (the probe) — or the
+model's marker for a loop that runs out of its bound (`diverge`; never produced by the driver in the tie) -/
 theorem ogg_load_io_faults (c : Codec) (e : Env) (hio : ∀ i x, e.failAt i = some x → x.isIO = true) (s s' : FS) (x : PyErr)
-    (h : loadM c e s = (.error x, s')) : x = .mutagen ∨ x = .value ∨ x = .index ∨ x = .diverge :=
+    (h : loadM c e s = (.error x, s')) : x = .mutagen ∨ x = .value ∨ x = .diverge :=
   loadM_io_faults c e hio s s' x h
+
+/-- the postcondition behind "no IndexError": in every environment, a page `OggPage(fileobj)` returns that is
+incomplete holds a packet -/
+theorem ogg_page_read_incomplete_has_packet (e : Env) (s : FS) (p : Page) (off : Nat) (s' : FS)
+    (h : readPageM e s = (.ok (p, off), s')) : p.complete = false → p.packets ≠ [] :=
+  post_readPageM e s (p, off) s' h
 
 /-- `OggPage(fileobj)` itself under any environment: EOFError (nothing came back from `read(27)`), ogg.error
 (anything else that is short or wrong), or what the file object raised -/
@@ -73,6 +82,51 @@ theorem ogg_page_loops_refine {e : Env} (hq : Quiet e) (serial fuel : Nat) (s : 
     (∀ best, ∃ s', slowLastM serial fuel best e s = (slowLastP s.data serial fuel s.pos best, s') ∧ s'.data = s.data) :=
   ⟨fun acc => readLoopM_q hq serial fuel acc s hp, fun acc last => collectM_q hq serial fuel acc last s hp,
    fun best => slowLastM_q hq serial fuel best s hp⟩
+
+/-- WITHOUT FAULTS (any capacity), from position 0: `OggX(fileobj)` returns what the pure load returns on the
+bytes of the file — identification page, comment data, padding, preserved data, the page the length is computed
+from, or the exception — and the file is what it was.  For EVERY byte string. -/
+theorem ogg_loadM_refines {e : Env} (hq : Quiet e) (c : Codec) (s : FS) (hp0 : s.pos = 0) :
+    ∃ s', loadM c e s = (loadPure c s.data, s') ∧ s'.data = s.data :=
+  loadM_q hq c s hp0
+
+/-- the pure load and the stream-info models of Model/Info/OggCodecs.lean are the same functions on every byte
+string: each `Info.<Codec>.init f` is "find the page (`infoFound`, what `infoP` / `loadM` find), decode it"
+(`*OfPage`: the text of `init` behind its page search) … -/
+theorem ogg_info_link (f : Bytes) :
+    (Info.Vorbis.init f = match infoFound .vorbis f with | .error e => .error e | .ok (page, _) => vorbisOfPage page) ∧
+    (Info.Opus.init f = match infoFound .opus f with | .error e => .error e | .ok (page, _) => opusOfPage page) ∧
+    (Info.Speex.init f = match infoFound .speex f with | .error e => .error e | .ok (page, _) => speexOfPage page) ∧
+    (Info.Theora.init f = match infoFound .theora f with | .error e => .error e | .ok (page, _) => theoraOfPage page) ∧
+    (Info.OggFlac.init f = match infoFound .flac f with | .error e => .error e | .ok (page, _) => flacOfPage page) :=
+  ⟨vorbis_init_link f, opus_init_link f, speex_init_link f, theora_init_link f, flac_init_link f⟩
+
+/-- … `idCheck` (the raise conditions `loadM` applies to that page) fails exactly when the decoding fails, with
+the same exception, and answers "total_samples = 0" for Ogg FLAC … -/
+theorem ogg_idcheck_link (page : Page) :
+    idCheck .vorbis page = (vorbisOfPage page).map (fun _ => true) ∧
+    idCheck .opus page = (opusOfPage page).map (fun _ => true) ∧
+    idCheck .speex page = (speexOfPage page).map (fun _ => true) ∧
+    idCheck .theora page = (theoraOfPage page).map (fun _ => true) ∧
+    idCheck .flac page = (flacOfPage page).map (fun i => decide (i.totalSamples = 0)) :=
+  idCheck_link page
+
+/-- … and `findLastP` (what `_post_tags` of `loadM` computes) is `Info.OggC.findLast`; the header search by
+position is `findHeader` -/
+theorem ogg_find_last_link (f : Bytes) (serial : Nat) (magic : Bytes) :
+    findLastP f serial = Info.OggC.findLast f serial ∧
+    Info.OggC.findHeader magic f = (scanFrom f (startsWith magic) (f.length + 1) 0).map fun x => x.1.page :=
+  ⟨findLastP_link f serial, findHeader_scan magic f⟩
+
+/-- READS-THEN-WRITES: `save` / `delete` with the search for the comment pages and `get_size` as programs
+(Model/Container/OggInjectFullM.lean) — without faults the reads leave the bytes alone and the rest is exactly
+the summarised `saveEntry` / `deleteEntry` of Props/C06_OggInject.lean / C19_OggInject.lean on those bytes, run
+from the state the reads leave.  For EVERY byte string. -/
+theorem ogg_save_reads_then_writes {e : Env} (hq : Quiet e) (B : Nat) (c : Codec) (vc vendor padData : Bytes) (pad : PadChoice) (s : FS) :
+    (∃ s', s'.data = s.data ∧ saveFullM B c vc padData pad e s = saveEntry B c s.data vc padData pad e s') ∧
+    (∃ s', s'.data = s.data ∧ deleteFullM B c vendor padData e s = deleteEntry B c s.data vendor padData e s') ∧
+    (∃ s', commentPagesM c e s = (commentPages c s.data, s') ∧ s'.data = s.data) :=
+  ⟨saveFullM_q hq B c vc padData pad s, deleteFullM_q hq B c vendor padData s, commentPagesM_q hq c s⟩
 
 /-! instances, computed -/
 
